@@ -192,6 +192,15 @@ def expand_preludes(names):
     return out
 
 
+# R14 (pipeline-wide, optional): std combinators taking a closure that ignores its argument are replaced by the `match` std defines them as
+# (Verus takes neither `|_|` nor an unspecified closure): `X.unwrap_or_else(|_| E)` => `match X { Ok(v) => v, Err(_) => E }` for a Result-valued
+# X, `X.map_err(|_| E)?` is left alone (error values are not compared).  Applied after the unit's own rewrites; a no-op on the unchanged tree.
+GLOBAL_RW = [
+    ('R14', -2, True, r'=\s*([^;=]+?\.(?:expand|abs|to_string|readlink|readlink_abs|mode|cwd|home_dir)\(\))\.unwrap_or_else\(\|_\w*\|\s*([^;]+)\);',
+     r'= match \1 { Ok(__v) => __v, Err(_) => \2 };'),
+]
+
+
 class Unit:
     def __init__(self, path):
         self.path = path
@@ -353,7 +362,7 @@ class Unit:
         if cur_text:
             self.chunks.append(('text', cur_text, len(lines) - len(cur_text) + 1))
         for it in self.items:
-            it.rewrites = list(it.rewrites) + list(self.rwall)
+            it.rewrites = list(it.rewrites) + list(self.rwall) + list(GLOBAL_RW)
 
     def all_props(self):
         s = set(self.props)
